@@ -4,6 +4,7 @@ import (
 	"encoding/json"
 	"fmt"
 	"math/big"
+	"sort"
 	"strings"
 	"time"
 
@@ -87,6 +88,45 @@ func freezeOf(s hist.State, addr string) *freezeRec {
 const bountyPool = "0lt6f6e656c6564676572426f756e747950726f6772616d" // "oneledgerBountyProgram"
 
 // C19 checks one block of allegation traffic and verdicts.
+// C19Mon adds, to the per-block rules of C19, what has to be followed over several blocks: the stake a guilty
+// validator is left with is also the stake its own record (its power once it is released) carries.
+type C19Mon struct {
+	guilty map[string]bool
+	lag    map[string]int
+}
+
+func NewC19() *C19Mon { return &C19Mon{guilty: map[string]bool{}, lag: map[string]int{}} }
+
+func (m *C19Mon) OnBlock(blk *hist.Block) []Finding {
+	out := C19(blk)
+	for _, g := range GuiltyIn(blk) {
+		m.guilty[g] = true
+	}
+	recs := Validators(blk.Cur)
+	var gs []string
+	for g := range m.guilty {
+		gs = append(gs, g)
+	}
+	sort.Strings(gs)
+	for _, g := range gs {
+		r := recs[g]
+		if r == nil {
+			continue
+		}
+		// (the cut reaches the validator's own record at a following block begin and is retried for a few
+		// blocks while the validator's removal from the set is guarded: never six blocks)
+		if r.Power != stakeTotal(blk.Cur, g) {
+			m.lag[g]++
+			if m.lag[g] >= 6 {
+				out = append(out, Finding{"C19", "C19/penalty/validator-record-not-cut", fmt.Sprintf("block %d: validator %s was found guilty; its stake after the cut is %d, its own record has carried %d for six blocks", blk.H, g, stakeTotal(blk.Cur, g), r.Power)})
+			}
+		} else {
+			m.lag[g] = 0
+		}
+	}
+	return out
+}
+
 func C19(blk *hist.Block) []Finding {
 	var out []Finding
 	opt := evidenceOptions(blk.Prev)
